@@ -2,6 +2,7 @@ package main
 
 import (
 	"fmt"
+	"reflect"
 	"sort"
 	"strings"
 
@@ -122,8 +123,8 @@ func (w *c02World) fieldErr(idx int, field string) error {
 
 type c02List struct{ l []interface{} }
 
-func (l *c02List) Len() int                { return len(l.l) }
-func (l *c02List) Nth(i int) interface{}   { return l.l[i] }
+func (l *c02List) Len() int              { return len(l.l) }
+func (l *c02List) Nth(i int) interface{} { return l.l[i] }
 
 // value of the neutral graph as this world's Go value
 func (w *c02World) goValue(v *gDVal, viaResolver bool) interface{} {
@@ -409,9 +410,9 @@ func c02Case(o *Out, r *Rng) {
 	}
 	mixed := make([]string, len(g.nodes))
 	type cfg struct {
-		name                          string
-		strat                         func(int) string
-		useAny, register, poison, lr  bool
+		name                         string
+		strat                        func(int) string
+		useAny, register, poison, lr bool
 	}
 	all := func(st string) func(int) string { return func(int) string { return st } }
 	mix := func(a, b string) func(int) string {
@@ -513,6 +514,7 @@ func init() {
 		}
 		c02ArgsStream(o, rng.Fork(), n/3)
 		c02EmptyLists(o)
+		c02Precedence(o)
 	}
 }
 
@@ -607,3 +609,81 @@ func c02EmptyLists(o *Out) {
 		o.Emit(Case{Term: N("c02e", S(doc)), Obs: LS(obs), Meta: map[string]interface{}{"doc": doc}, Nontrivial: true})
 	}
 }
+
+// ---- precedence: with a root resolver set, lists are walked through its Len / Nth ----------------------
+//
+// "The interface resolver takes precedence over the root resolver, which takes precedence over reflection."  A root
+// resolver whose Len / Nth are not plain indexing (here: the members come back last first, and the last one is
+// hidden) shows which of the two walked a list: whatever Go type holds the members, the response is the one
+// Len / Nth dictate.  Fixed table, every run.
+
+type c02PThing struct{ Name string }
+
+type c02PAny struct{}
+
+func (c02PAny) Resolve(obj interface{}, f *ggql.Field, args map[string]interface{}) (interface{}, error) {
+	switch t := obj.(type) {
+	case map[string]interface{}:
+		return t[f.Name], nil
+	case *c02PThing:
+		if f.Name == "name" {
+			return t.Name, nil
+		}
+	}
+	return nil, nil
+}
+
+func c02PLen(list interface{}) int {
+	rv := reflect.ValueOf(list)
+	if rv.Kind() == reflect.Slice || rv.Kind() == reflect.Array {
+		return rv.Len()
+	}
+	return 0
+}
+
+// all but the last member, last first
+func (c02PAny) Len(list interface{}) int {
+	if n := c02PLen(list); 0 < n {
+		return n - 1
+	}
+	return 0
+}
+
+func (c02PAny) Nth(list interface{}, i int) (interface{}, error) {
+	rv := reflect.ValueOf(list)
+	n := c02PLen(list) - 1
+	if i < 0 || n <= i {
+		return nil, fmt.Errorf("no member %d", i)
+	}
+	return rv.Index(n - 1 - i).Interface(), nil
+}
+
+func c02Precedence(o *Out) {
+	const sdl = "type Query { items: [Item] }\ntype Item { name: String }"
+	m := func(n string) map[string]interface{} { return map[string]interface{}{"name": n} }
+	lists := []struct {
+		name string
+		list interface{}
+	}{
+		// (a []interface{} — and the seven built-in leaf slices — are walked directly by design, before the root
+		// resolver is asked: they are the library's own list representation; not in this table)
+		{"[]map[string]interface{}", []map[string]interface{}{m("a"), m("b"), m("c")}},
+		{"[]*struct", []*c02PThing{{"a"}, {"b"}, {"c"}}},
+		{"[3]*struct", [3]*c02PThing{{"a"}, {"b"}, {"c"}}},
+		{"named slice type", c02PNamed{m("a"), m("b"), m("c")}},
+	}
+	const want = `{"data":{"items":[{"name":"b"},{"name":"a"}]}}`
+	for _, l := range lists {
+		root := ggql.NewRoot(map[string]interface{}{"query": map[string]interface{}{"items": l.list}})
+		root.AnyResolver = c02PAny{}
+		if err := root.ParseString(sdl); err != nil {
+			panic(err)
+		}
+		got := canon(safeResolve(root, "{ items { name } }", "", nil))
+		o.Count("root-resolver list precedence cases")
+		o.Emit(Case{Term: N("c02p", S(l.name)), Obs: N("obs", B(got == want)),
+			Meta: map[string]interface{}{"list": l.name, "response": got, "expected": want}, Nontrivial: true})
+	}
+}
+
+type c02PNamed []map[string]interface{}
